@@ -25,6 +25,7 @@ import (
 	"fmt"
 	"os"
 	"strings"
+	"verif/harness/rdr"
 
 	"github.com/sqlc-dev/doubleclick/lexer"
 	"github.com/sqlc-dev/doubleclick/parser"
@@ -77,7 +78,7 @@ func explainOne(src string) (res string) {
 			res = "PANIC"
 		}
 	}()
-	stmts, err := parser.Parse(context.Background(), strings.NewReader("SELECT "+src))
+	stmts, err := parser.Parse(context.Background(), rdr.For("SELECT "+src))
 	if err != nil || len(stmts) != 1 {
 		return "ERR"
 	}
